@@ -2,7 +2,7 @@ CONSTANTS
   Sessions = {"s1"}
   Ghosts = {"null"}
   NodeSet = {"n"}
-  Values = {1, 2}
+  Values = {0, 1, 2}
   SubIds = {}
   ItemIds = {}
   Devs = {}
@@ -11,6 +11,7 @@ CONSTANTS
   MaxOps = 7
   MaxProbes = 0
   SetLevels = {"missing", "0", "1", "2", "3"}
+  BadActivations = "no"
 INIT GInit
 NEXT GNext
 INVARIANT InvSessionRequired
